@@ -230,7 +230,10 @@ func (m *model) measure(s, e int) (lenient, strict fixed.Int26_6) {
 		}
 	}
 	lo, hi := base-trail, base-trail
-	if lastRun.Direction != m.b.cfg.Direction {
+	// a trailing glyph with a negative advance (negative word spacing larger than the space): not
+	// counting it widens the line; the statement's discount is read as optional there. The same when
+	// the last run does not have the paragraph direction.
+	if lastRun.Direction != m.b.cfg.Direction || trail < 0 {
 		if base < lo {
 			lo = base
 		}
